@@ -499,7 +499,9 @@ class ModuleVistor(NodeVisitor):
             if isinstance(target_obj, model.Function):
 
                 # _handleOldSchoolMethodDecoration must only be called in a class scope.
-                assert target_obj.kind is model.DocumentableKind.METHOD
+                # The function might have been decorated already: the last wrapper decides.
+                assert target_obj.kind in (model.DocumentableKind.METHOD, 
+                    model.DocumentableKind.STATIC_METHOD, model.DocumentableKind.CLASS_METHOD)
 
                 if func_name == 'staticmethod':
                     target_obj.kind = model.DocumentableKind.STATIC_METHOD
